@@ -284,7 +284,7 @@ def run(chk):
     chk.clause(PROP + ".bucket", checked=chk.cov["states"], nontrivial=tags.get("nontrivial", 0))
     chk.cov["bounds"] = {"bucket toggles d": d}
     n0 = chk.cov["states"]
-    f2, tags2, ind = c01.explore(chk, PROP, evaluate_idem, fails_fn, shrink=(c01.ALL.wit, simplify, fails_fn))
+    f2, tags2, ind = c01.explore(chk, PROP, evaluate_idem, fails_fn, shrink=(c01.ALL.wit, simplify, fails_fn), medium=True)
     chk.cov["transitions"] = n0 * 2 + (chk.cov["states"] - n0) * 5
     sw = sweep_cases()
     step = 400
